@@ -39,11 +39,11 @@ ASSUMPTIONS = [
 FLOORS = {"quick": {"compared": 6000, "compared_ok": 1500,
                     "compared_reject": 1500, "badvalue_class_checked": 150,
                     "bad_specifiers": 500},
-          "thorough": {"compared": 300000, "compared_ok": 80000,
-                       "compared_reject": 80000,
-                       "badvalue_class_checked": 8000,
-                       "bad_specifiers": 20000}}
-N_MODELS = {"quick": 1500, "thorough": 12000}
+          "thorough": {"compared": 300000, "compared_ok": 150000,
+                       "compared_reject": 120000,
+                       "badvalue_class_checked": 20000,
+                       "bad_specifiers": 80000}}
+N_MODELS = {"quick": 1500, "thorough": 60000}
 TEXTS = {"quick": 8, "thorough": 20}
 BAD_SPECS = ["novalue", "a//b=v", "/a=v", "a/=v", "=v", "a/b", "//=x", ""]
 
